@@ -142,8 +142,11 @@ GetTextR(d) == IF ~Live(d) THEN Off ELSE
            text |-> IF v.k \in {"char", "numb"} THEN v.t ELSE ""], Cur)
 CloneR(d) == IF ~Live(d) \/ FreeSlot = "" THEN Off ELSE
     On([op |-> "value_op", f |-> "clone", v |-> d, out |-> FreeSlot, rc |-> OK], [Cur EXCEPT !.roots[FreeSlot] = Val(d)])
-\* clone onto an existing root that does not overlap the source
-CloneIntoR(d, s) == IF ~Live(d) \/ roots[s] = None \/ RootOf(d) = s THEN Off ELSE
+\* clone onto an existing root.  The source may be the target itself (a value is a copy of itself: nothing changes) or a
+\* member of the target at any depth: the target becomes a copy of what the member was, and every reference into the old
+\* target - the source's own included - dies with it
+CloneIntoR(d, s) == IF ~Live(d) \/ roots[s] = None THEN Off ELSE
+    IF d = s THEN On([op |-> "value_op", f |-> "clone", v |-> d, out |-> s, into |-> 1, rc |-> OK, drop |-> {}], Cur) ELSE
     LET dead == Below(s, <<>>)
     IN On([op |-> "value_op", f |-> "clone", v |-> d, out |-> s, into |-> 1, rc |-> OK, drop |-> dead],
           [Cur EXCEPT !.roots[s] = Val(d), !.refs = DropRefs(dead)])
